@@ -23,6 +23,10 @@
  * octet of the reply x error codes: still never executed nor acknowledged.
  * Part 5 (sessions): every sequence of 2..3 (thorough: 4) receptions out of
  * good requests, corrupted frames of every class and channel-level failures.
+ * After a channel failure that regp_recv reported (negative return) a round in
+ * which regp_recv < 0 took no octet off the line is judged like a channel
+ * failure (an instance may latch the failure until a channel is installed
+ * again; it never saw the frame it would have to classify).
  * Part 6 (what the library itself puts on a serial line): every frame kind the
  * library emits (requests, responses to every backend verdict), then every
  * single-bit flip, two-bit flip in octets >= 2 and truncation: a frame that
@@ -116,6 +120,15 @@ static unsigned
 frame_vset(bool tcp, const unsigned char *X, size_t n, struct rframe *rf)
 {
     unsigned vset = rr_verdict(X, n, rf);
+    /* A frame that ends inside the header it declares (12 <= n < 12 + 2 per
+     * declared checksum word) while declaring a header checksum: the header is
+     * malformed (bad header encoding), and equally "the header checksum cannot be
+     * verified" -- the checksum word is missing or cut (bad header checksum).
+     * The document does not order the two tests: either class is admitted.
+     * Fewer than the 12 octets of the fixed header: no option bits can be read,
+     * bad header encoding only. */
+    if (n >= 12 && !(vset & RV_OK) && rf->hdrlen == 0 && (rf->options & RO_HDCRC))
+        vset |= RV_BADHDRCRC;
     /* transport-mandated option bits: the document could be read as making a
      * violation a header encoding error; the receiver may take either view */
     if (vset & RV_OK) {
@@ -1040,6 +1053,7 @@ part5(void)
                         n_valid = 0;
                         session_start(tcp, true, mode);
                         bool ok = true, hasfail = false;
+                        bool chan_failed = false; /* an earlier regp_recv of the session reported a failure (negative return) */
                         for (int k = 0; k < len && ok; ++k) {
                             const struct sitem *x = &sitems[tcp][seq[k]];
                             char fd[96];
@@ -1055,12 +1069,23 @@ part5(void)
                             mc_trans(3);
                             if (mc.verbose && mc.active)
                                 mc_log("%s: recv rc=%d error.id=%d process rc=%d calls=%d reply=%zu octets", fd, r.rrc, r.errid, r.prc, r.calls, D.outlen);
-                            if (x->kind == SK_BAD) {
+                            /* After a channel failure that regp_recv reported (hard source error,
+                             * framing violation: negative return) an instance may latch the failure
+                             * and refuse reception until the caller installs a channel again: a
+                             * round in which regp_recv < 0 took no octet off the line never saw the
+                             * frame, so there is nothing it could classify.  Judged like a channel
+                             * failure: not executed, not acknowledged, ledger. */
+                            const bool unread = chan_failed && x->wn > 0 && r.rrc < 0 && D.inpos == 0;
+                            if (r.rrc < 0)
+                                chan_failed = true;
+                            if (unread && mc.verbose && mc.active)
+                                mc_log("%s: reception refused without taking an octet off the line (after an earlier reported channel failure): judged like a channel failure", fd);
+                            if (x->kind == SK_BAD && !unread) {
                                 struct rframe rf;
                                 const unsigned vset = frame_vset(tcp, x->raw, x->rn, &rf);
                                 ok = judge(tcp, &rf, vset, &r, false, fd);
                                 hasfail = true;
-                            } else if (x->kind == SK_CHAN) {
+                            } else if (x->kind == SK_CHAN || unread) {
                                 unsigned char scratch[DRV_WIRE];
                                 struct rframe reply[8];
                                 bool acked;
